@@ -189,6 +189,8 @@ fn run_clear_generic<A: Ar>(spec: &DiffSpec, tag: u64, clear_at: usize, mut sour
             // fresh arena: same options, the minimum segment size currently in force
             let mut c2 = spec.cfg;
             c2.min_seg = e1.a().snap().min_seg;
+            // ... and the capacity currently in force (a truncate may have changed it)
+            c2.cap = e1.a().capacity() as u32;
             match Exec::<A>::new(c2, p2.clone(), mk(None)) {
                 Ok(e) => e2 = Some(e),
                 Err(_) => {
@@ -265,6 +267,8 @@ fn clear_profile() -> Profile {
     // extra arena values only change refs(), which is not part of "indistinguishable from a fresh arena"
     p.w[gen::W_CLONE] = 0;
     p.w[gen::W_DROPARENA] = 0;
+    // one writable session: a fresh arena has no earlier sessions to compare with
+    p.w[gen::W_REOPEN] = 0;
     p
 }
 
